@@ -63,21 +63,42 @@ template<class Trainer> static void props(Trainer& t, Result& r){
 }
 
 // the trainer's own code with the cache size honoured: what trainBinary does, with CachedMatrix(&km, cache)
+template<class KM, class V, class F> static void pipeWith(KM& km, CSvmTrainer<V, F>& t, KernelExpansion<V>& f, Cfg const& c,
+		LabeledData<V, unsigned int> const& data, WeightedLabeledData<V, unsigned int> const& wdata){
+	CachedMatrix<KM> matrix(&km, c.cache);
+	if(c.weighted){
+		GeneralQuadraticProblem<CachedMatrix<KM> > problem(matrix, wdata.labels(), wdata.weights(), t.m_regularizers);
+		t.optimize(f, problem, wdata.data());
+	}else{
+		CSVMProblem<CachedMatrix<KM> > problem(matrix, data.labels(), t.m_regularizers);
+		t.optimize(f, problem, data);
+	}
+}
+template<class V, class F> static void pipeMatrix(CSvmTrainer<V, F>& t, KernelExpansion<V>& f, Cfg const& c,
+		LabeledData<V, unsigned int> const& data, WeightedLabeledData<V, unsigned int> const& wdata){
+	KernelMatrix<V, F> km(*t.m_kernel, data.inputs());
+	pipeWith(km, t, f, c, data, wdata);
+}
+// sparse inputs: like trainBinary, a Gaussian kernel goes through the optimised GaussianKernelMatrix
+template<class F> static void pipeMatrix(CSvmTrainer<CompressedRealVector, F>& t, KernelExpansion<CompressedRealVector>& f, Cfg const& c,
+		LabeledData<CompressedRealVector, unsigned int> const& data, WeightedLabeledData<CompressedRealVector, unsigned int> const& wdata){
+	typedef GaussianRbfKernel<CompressedRealVector> Gaussian;
+	Gaussian const* kernel = dynamic_cast<Gaussian const*>(t.m_kernel);
+	if(kernel != 0){
+		GaussianKernelMatrix<CompressedRealVector, F> km(kernel->gamma(), data.inputs());
+		pipeWith(km, t, f, c, data, wdata);
+	}else{
+		KernelMatrix<CompressedRealVector, F> km(*t.m_kernel, data.inputs());
+		pipeWith(km, t, f, c, data, wdata);
+	}
+}
 template<class V, class F> static void pipeTrain(CSvmTrainer<V, F>& t, KernelClassifier<V>& svm, Cfg const& c,
 		LabeledData<V, unsigned int> const& data, WeightedLabeledData<V, unsigned int> const& wdata){
 	auto& f = svm.decisionFunction();
 	if(!(f.basis() == data.inputs() && f.kernel() == t.m_kernel && f.alpha().size1() == c.n && f.alpha().size2() == 1))
 		f.setStructure(t.m_kernel, data.inputs(), t.m_trainOffset);
 	else if(t.m_trainOffset) f.offset() = RealVector(1);
-	KernelMatrix<V, F> km(*t.m_kernel, data.inputs());
-	CachedMatrix<KernelMatrix<V, F> > matrix(&km, c.cache);
-	if(c.weighted){
-		GeneralQuadraticProblem<CachedMatrix<KernelMatrix<V, F> > > problem(matrix, wdata.labels(), wdata.weights(), t.m_regularizers);
-		t.optimize(f, problem, wdata.data());
-	}else{
-		CSVMProblem<CachedMatrix<KernelMatrix<V, F> > > problem(matrix, data.labels(), t.m_regularizers);
-		t.optimize(f, problem, data);
-	}
+	pipeMatrix(t, f, c, data, wdata);
 }
 
 template<class V, class F> static Result train(Cfg const& c){
